@@ -280,6 +280,35 @@ class RidRoundTrip(FnContract):
             ([repr(inputs["bp_short"]), repr(inputs["bp_version"]), repr(self.bp_type)] if self.bp_type else []))
 
 
+def summary_check_nevra(src):
+    """Rpms._check_nevra at call sites (contract CheckNevra, proved in C13/C12): ValueError unless the name has a ':' and the
+    NVRA pattern matches; otherwise (canonical string, parts) over abstract match groups -- one path per outcome."""
+    def summ(E, o, args, kwargs):
+        from pyvc.engine import PyRaise, ExcVal, Unsupported
+        from pyvc.models import SymMatch
+        nevra = args[0]
+        if not E.decide(is_str(nevra)):
+            raise Unsupported("precondition of _check_nevra (str) not established at the call site")
+        pat = _pattern_of(src, "common", "RPM_NVRA_RE")
+        stripped = If(sym.endswith(nevra, ".rpm"), sym.drop_suffix(nevra, 4), nevra) if isinstance(nevra, sym.SV) else \
+            (nevra[:-4] if nevra.endswith(".rpm") else nevra)
+        if not E.decide(And(sym.contains(nevra, ":"), sym.matches(pat, stripped))):
+            raise PyRaise(ExcVal(ValueError, ("Invalid N-E:V-R.A",)))
+        m = SymMatch(pat, sym.sstr(stripped))
+        d = E.models.sym_groupdict(m)
+        g = m.groups
+        absent = Or(is_none(g["epoch"]), eq(g["epoch"], ""))
+        ep = If(absent, 0, sym.int_of_digits(sym.SV(sym.Val.VStr(sym.Val.s(g["epoch"].t)))))
+        E.models.sd_set(d, "epoch", ep)
+        canon = sym.concat(g["name"], "-", sym.str_of_int(ep), ":", g["version"], "-", g["release"], ".", g["arch"])
+        return (canon, d)
+    return summ
+
+
+def summaries(src, T):
+    return {(("rpms", "Rpms"), "_check_nevra"): summary_check_nevra(src)}
+
+
 def contracts(src, T):
     out = [ParseNvra(src, T), RelativeTo(src, T), CheckNevra(src, T), CreateReleaseId(src, T)]
     for t in T.RELEASE_TYPES:
